@@ -30,6 +30,12 @@ def rule_document(ck: Check, repo: Repo) -> None:
     q = f"{RP}.ProjectReport.bill_of_materials"
     fn = repo.func(q)
     ck.analysed_fn(q)
+    buf = next((ast.unparse(st.targets[0]) for st in fn.body if isinstance(st, ast.Assign) and ast.unparse(st.value) == "StringIO()"), None)
+    if buf is None:
+        raise AnalysisError("bill_of_materials: no StringIO() output buffer")
+    rets = [ast.unparse(n.value) for n in ast.walk(fn) if isinstance(n, ast.Return)]
+    if rets != [f"{buf}.getvalue()"]:
+        raise AnalysisError(f"bill_of_materials: returns {rets}, not the buffer's value")
 
     class H(Hooks):
         def atom(self, text, node, it):
@@ -41,7 +47,7 @@ def rule_document(ck: Check, repo: Repo) -> None:
 
         def event(self, text, call, it):
             f = ast.unparse(call.func)
-            if f == "out.write" and call.args:
+            if f == f"{buf}.write" and call.args:
                 return ("write", ast.unparse(call.args[0]))
             if f.endswith(".open"):
                 return ("open", text)
@@ -130,6 +136,28 @@ def rule_checksum(ck: Check, repo: Repo) -> None:
         if not ok:
             r.violation(q, f"checksum {k}", "FileChecksum must be the SHA-1 of the complete file content read in binary mode",
                         repo.loc(fn))
+    spdx_id_inputs(ck, repo, r)
+    cmds = repo.commands()
+    if "spdx" not in cmds:
+        raise AnalysisError("anchor vanished: command spdx")
+    sp = cmds["spdx"]
+    calls = find_calls(sp, lambda c, f: f == "ProjectReport.generate")
+    for c in calls:
+        dc = kwarg(c, "do_checksum")
+        pos = len(c.args) > 1
+        r.instance("spdx-generate", {"do_checksum": ast.unparse(dc) if dc else "<default True>"})
+        if (dc is not None and ast.unparse(dc) != "True") or pos:
+            r.violation(repo.qualname_of(sp), "spdx disables real checksums", f"do_checksum={ast.unparse(dc) if dc else 'positional'}", repo.loc(c))
+    if len(calls) != 1:
+        r.violation(repo.qualname_of(sp), "report generation", f"{len(calls)} generate calls", repo.loc(sp))
+    gen = repo.func(f"{RP}.ProjectReport.generate")
+    dflt = {a.arg: ast.unparse(d) for a, d in zip(gen.args.args[-len(gen.args.defaults):], gen.args.defaults)}
+    if dflt.get("do_checksum") != "True":
+        r.violation(f"{RP}.ProjectReport.generate", "default do_checksum", f"{dflt.get('do_checksum')}", repo.loc(gen))
+
+
+def spdx_id_inputs(ck: Check, repo: Repo, r) -> None:
+    """SPDXID = digest of exactly (root-relative name, checksum); the name is './<path relative to the root>'."""
     g = repo.func(f"{RP}.FileReport.generate")
 
     class H(Hooks):
@@ -174,23 +202,6 @@ def rule_checksum(ck: Check, repo: Repo) -> None:
                         f"report = {str(obj)[:80]}; FileName / SPDXID uniqueness rests on name = './<path relative to the root>'", repo.loc(g))
         if not re.fullmatch(r"f'SPDXRef-\{(spdx_id|md5\(\))\.hexdigest\(\)\}'", st.get("spdx_id") or ""):
             r.violation(f"{RP}.FileReport.generate", "SPDXID form", f"{st.get('spdx_id')}", repo.loc(g))
-    cmds = repo.commands()
-    if "spdx" not in cmds:
-        raise AnalysisError("anchor vanished: command spdx")
-    sp = cmds["spdx"]
-    calls = find_calls(sp, lambda c, f: f == "ProjectReport.generate")
-    for c in calls:
-        dc = kwarg(c, "do_checksum")
-        pos = len(c.args) > 1
-        r.instance("spdx-generate", {"do_checksum": ast.unparse(dc) if dc else "<default True>"})
-        if (dc is not None and ast.unparse(dc) != "True") or pos:
-            r.violation(repo.qualname_of(sp), "spdx disables real checksums", f"do_checksum={ast.unparse(dc) if dc else 'positional'}", repo.loc(c))
-    if len(calls) != 1:
-        r.violation(repo.qualname_of(sp), "report generation", f"{len(calls)} generate calls", repo.loc(sp))
-    gen = repo.func(f"{RP}.ProjectReport.generate")
-    dflt = {a.arg: ast.unparse(d) for a, d in zip(gen.args.args[-len(gen.args.defaults):], gen.args.defaults)}
-    if dflt.get("do_checksum") != "True":
-        r.violation(f"{RP}.ProjectReport.generate", "default do_checksum", f"{dflt.get('do_checksum')}", repo.loc(gen))
 
 
 def rule_concluded(ck: Check, repo: Repo) -> None:
